@@ -9,6 +9,7 @@ CONSTANTS
   DevD7 = FALSE
   DevD14 = FALSE
   DevGiveUp = FALSE
+  DevRefusedGraft = FALSE
 INVARIANTS TypeOK P_C13 P_C13_Immediate
 VIEW MCView
 CHECK_DEADLOCK FALSE
